@@ -1,6 +1,7 @@
 package c12
 
 import (
+	"fmt"
 	"testing"
 
 	"go.lstv.dev/util/size"
@@ -24,6 +25,47 @@ var coldFirst = map[string]func(){
 	"unmarshaljson":         func() { var s size.Size; _ = s.UnmarshalJSON([]byte(`{"unit":"MB","value":2}`)) },
 	"unmarshaljson null":    func() { var s size.Size; _ = s.UnmarshalJSON([]byte(`null`)) },
 	"marshaljson":           func() { _, _ = size.Size(2048).MarshalJSON() },
+}
+
+func init() {
+	// the first reads of the process happen under other settings than the later ones (DefaultRule, MaxObjectKeys,
+	// MaxInputLength), which are then put back
+	docs := []string{`{"value":3,"unit":"KiB"}`, `"1 000 kB"`, "1024", `{"x":1,"value":3,"unit":"B"}`, `{"value":1,"value":2,"unit":"B"}`}
+	for _, rule := range []int{0, 1, 2, 4, 8, 10, 12, 15} {
+		rule := rule
+		coldFirst[fmt.Sprintf("first reads under DefaultRule %d", rule)] = func() {
+			old := size.DefaultRule
+			size.DefaultRule = size.Rule(rule)
+			for _, d := range docs {
+				var s size.Size
+				_ = s.UnmarshalJSON([]byte(d))
+				_, _ = size.DefaultParser(d, size.DefaultRule)
+			}
+			size.DefaultRule = old
+		}
+	}
+	for _, keys := range []int{1, 2, 0} {
+		keys := keys
+		coldFirst[fmt.Sprintf("first reads under MaxObjectKeys %d", keys)] = func() {
+			old := size.MaxObjectKeys
+			size.MaxObjectKeys = keys
+			for _, d := range docs {
+				_, _ = size.DefaultParser(d, 6)
+			}
+			size.MaxObjectKeys = old
+		}
+	}
+	for _, lim := range []int{1, 8, 0} {
+		lim := lim
+		coldFirst[fmt.Sprintf("first reads under MaxInputLength %d", lim)] = func() {
+			old := size.MaxInputLength
+			size.MaxInputLength = lim
+			for _, d := range docs {
+				_, _ = size.DefaultParser(d, 6)
+			}
+			size.MaxInputLength = old
+		}
+	}
 }
 
 func TestColdStart(t *testing.T) {
